@@ -60,6 +60,30 @@ dp! {
 	c11t_dp_box3: Box<Box<Box<bool>>>, None, 2, true, 4; c11t_dp_vec_u32_1: Vec<u32>, Some(1), 5, true, 8; c11t_dp_res: Result<Box<u8>, Box<Box<u8>>>, None, 3, true, 5;
 }
 
+/// a value type that counts one nesting level but owns no heap (no drop glue: keeps std's B-tree build out of the query's
+/// way): containers inside a map's entries must see the map's level
+#[derive(Clone, Copy, PartialEq, Eq, PartialOrd, Ord)]
+pub struct Lvl(pub u8);
+impl Decode for Lvl {
+	fn decode<I: Input>(input: &mut I) -> Result<Self, parity_scale_codec::Error> {
+		input.descend_ref()?;
+		let b = input.read_byte();
+		input.ascend_ref();
+		Ok(Lvl(b?))
+	}
+}
+impl Spec for Lvl {
+	fn spec_enc<const N: usize>(&self, o: &mut Buf<N>) { o.put(self.0) }
+	fn spec_dec(c: &mut Cur) -> Option<Self> { Some(Lvl(c.byte()?)) }
+	fn same(&self, o: &Self) -> bool { self.0 == o.0 }
+	fn spec_depth(&self) -> u32 { 1 }
+}
+impl Elem for Lvl {}
+dp! {
+	c11q_dp_map_value_level: BTreeMap<u8, Lvl>, Some(1), 2, false, 6; c11q_dp_set_elem_level: BTreeSet<Lvl>, Some(1), 1, false, 6; c11q_dp_list_elem_level: LinkedList<Lvl>, Some(2), 2, true, 6;
+	c11q_dp_vec_elem_level: Vec<Lvl>, Some(2), 2, true, 6; c11t_dp_map_key_level: BTreeMap<Lvl, u8>, Some(1), 2, false, 6; c11t_dp_deque_elem_level: VecDeque<Lvl>, Some(2), 2, true, 6;
+}
+
 /// decode_all_with_depth_limit additionally rejects a non-empty remainder (also decided in C14)
 #[kani::proof]
 #[kani::unwind(6)]
